@@ -161,6 +161,10 @@ def run(ctx):
     ctx.extra["tlc_cases_replayed"] = len(seen)
     xctx = XmlContext()
     # (Holder has Base-typed fields holding Derived instances: not representable without a type marker)
+    # the shape matrix of spec/DictShape.tla: every canonical (field kind, JSON shape, position) decodes and re-encodes
+    from .. import dictshape_bind
+
+    dictshape_bind.run_matrix(ctx, "C04")
     roots = [zoo.Leaf, zoo.Item, zoo.QNames, zoo.Prims, zoo.Seq, zoo.Compound, zoo.UnionModels, zoo.UnionEl, zoo.ReqNil]
     for k, obj in enumerate(zoo.instances(ctx.seed + 4, ctx.pick(300, 10**7), roots=roots)):
         ctx.case(("zoo-dict", k))
